@@ -219,54 +219,73 @@ func runC09(c *core.C) {
 		for _, route := range []int{rV2C, rV2A} {
 			src, dst := pl.v2IDs(route)
 			for k1 := 0; k1 <= 3; k1++ {
-				for _, outcome := range []string{"success", "error", "async"} {
-					w := base.Fork()
-					payload := mockv2.NewMockPayload(mockv2.PortIDA, mockv2.PortIDB)
-					tsec := uint64(w.CS[0].TimeNs()/1e9) + 3600
-					seq, r := w.SendV2(0, src, tsec, ksim.Signer, payload)
-					ksim.MustOK("c09 v2 send", r)
-					pkt := channeltypesv2.NewPacket(seq, src, dst, tsec, payload)
-					w.Sync(1, pl.link.ClientB, 0)
-					var wrote []string
-					appB.OnRecvPacket = func(ctx sdk.Context, _, _ string, sq uint64, _ channeltypesv2.Payload, _ sdk.AccAddress) channeltypesv2.RecvPacketResult {
-						for i := 0; i < k1; i++ {
-							key := fmt.Sprintf("verif/v2/%d/%d", sq, i)
-							ctx.KVStore(storeX).Set([]byte(key), []byte{1})
-							wrote = append(wrote, "transfer/"+key)
+				// lead = number of payloads of the same packet that succeed (each writing one key) before the
+				// payload under test answers: an error acknowledgement must discard their writes as well
+				for _, lead := range []int{0, 1, 2} {
+					for _, outcome := range []string{"success", "error", "async"} {
+						if lead > 0 && outcome == "async" {
+							continue // core rejects asynchronous answers in multi-payload packets
 						}
+						w := base.Fork()
+						payload := mockv2.NewMockPayload(mockv2.PortIDA, mockv2.PortIDB)
+						payloads := []channeltypesv2.Payload{payload}
+						for i := 0; i < lead; i++ {
+							payloads = append(payloads, payload)
+						}
+						tsec := uint64(w.CS[0].TimeNs()/1e9) + 3600
+						seq, r := w.SendV2(0, src, tsec, ksim.Signer, payloads...)
+						ksim.MustOK("c09 v2 send", r)
+						pkt := channeltypesv2.NewPacket(seq, src, dst, tsec, payloads...)
+						w.Sync(1, pl.link.ClientB, 0)
+						var wrote []string
+						calls := 0
+						appB.OnRecvPacket = func(ctx sdk.Context, _, _ string, sq uint64, _ channeltypesv2.Payload, _ sdk.AccAddress) channeltypesv2.RecvPacketResult {
+							calls++
+							if calls <= lead {
+								key := fmt.Sprintf("verif/v2/%d/lead%d", sq, calls)
+								ctx.KVStore(storeX).Set([]byte(key), []byte{1})
+								wrote = append(wrote, "transfer/"+key)
+								return channeltypesv2.RecvPacketResult{Status: channeltypesv2.PacketStatus_Success, Acknowledgement: []byte("ok")}
+							}
+							for i := 0; i < k1; i++ {
+								key := fmt.Sprintf("verif/v2/%d/%d", sq, i)
+								ctx.KVStore(storeX).Set([]byte(key), []byte{1})
+								wrote = append(wrote, "transfer/"+key)
+							}
+							switch outcome {
+							case "error":
+								return channeltypesv2.RecvPacketResult{Status: channeltypesv2.PacketStatus_Failure}
+							case "async":
+								return channeltypesv2.RecvPacketResult{Status: channeltypesv2.PacketStatus_Async}
+							}
+							return channeltypesv2.RecvPacketResult{Status: channeltypesv2.PacketStatus_Success, Acknowledgement: []byte("ok")}
+						}
+						pre := w.Fork()
+						rr := w.RecvV2(1, 0, pkt, w.ClientLatest(1, pl.link.ClientB))
+						appB.OnRecvPacket = saved
+						v2evals++
+						caseKey := fmt.Sprintf("mockv2/%s/lead=%d/k=%d/%s", routeNames[route], lead, k1, outcome)
+						distinct[caseKey] = true
+						if rr.Class != ksim.OK {
+							c.Broken("v2 mock receive %s failed: %s %v", caseKey, rr, rr.Err)
+							return
+						}
+						recvKey := "ibc/" + string(hostv2.PacketReceiptKey(dst, seq))
+						ackKey := "ibc/" + string(hostv2.PacketAcknowledgementKey(dst, seq))
+						asyncKey := "ibc/" + string(channeltypesv2.AsyncPacketKey(dst, seq))
+						var want []string
 						switch outcome {
 						case "error":
-							return channeltypesv2.RecvPacketResult{Status: channeltypesv2.PacketStatus_Failure}
+							want = []string{recvKey, ackKey}
+						case "success":
+							want = append([]string{recvKey, ackKey}, wrote...)
 						case "async":
-							return channeltypesv2.RecvPacketResult{Status: channeltypesv2.PacketStatus_Async}
+							want = append([]string{recvKey, asyncKey}, wrote...)
 						}
-						return channeltypesv2.RecvPacketResult{Status: channeltypesv2.PacketStatus_Success, Acknowledgement: []byte("ok")}
-					}
-					pre := w.Fork()
-					rr := w.RecvV2(1, 0, pkt, w.ClientLatest(1, pl.link.ClientB))
-					appB.OnRecvPacket = saved
-					v2evals++
-					caseKey := fmt.Sprintf("mockv2/%s/k=%d/%s", routeNames[route], k1, outcome)
-					distinct[caseKey] = true
-					if rr.Class != ksim.OK {
-						c.Broken("v2 mock receive %s failed: %s %v", caseKey, rr, rr.Err)
-						return
-					}
-					recvKey := "ibc/" + string(hostv2.PacketReceiptKey(dst, seq))
-					ackKey := "ibc/" + string(hostv2.PacketAcknowledgementKey(dst, seq))
-					asyncKey := "ibc/" + string(channeltypesv2.AsyncPacketKey(dst, seq))
-					var want []string
-					switch outcome {
-					case "error":
-						want = []string{recvKey, ackKey}
-					case "success":
-						want = append([]string{recvKey, ackKey}, wrote...)
-					case "async":
-						want = append([]string{recvKey, asyncKey}, wrote...)
-					}
-					sort.Strings(want)
-					if d := diffOn(pre, w, 1); strings.Join(d, "\x00") != strings.Join(want, "\x00") {
-						c.Violation("mockv2-recv-diff/"+outcome+"/"+routeNames[route], fmt.Sprintf("%s: receive changed keys %q, expected exactly %q", caseKey, d, want), map[string]any{"case": caseKey, "changed": d, "expected": want})
+						sort.Strings(want)
+						if d := diffOn(pre, w, 1); strings.Join(d, "\x00") != strings.Join(want, "\x00") {
+							c.Violation("mockv2-recv-diff/"+outcome+"/"+routeNames[route], fmt.Sprintf("%s: receive changed keys %q, expected exactly %q", caseKey, d, want), map[string]any{"case": caseKey, "changed": d, "expected": want})
+						}
 					}
 				}
 			}
@@ -495,7 +514,7 @@ func runC09(c *core.C) {
 	c.Set("transfer_cases", tEvals)
 	c.Set("evaluations", evals+tEvals)
 	c.Set("distinct_nontrivial", len(distinct))
-	c.Set("rule", "mock stacks: v2 mock application on the client and alias routes with k in 0..3 writes x success/error/async; v1 mock: every (ordering, k1 in 0..3 writes to one module store, k2 writes to another, outcome in success/error/async) x 1-2 packets; transfer stack (rate-limit -> packet-forward -> transfer): fault-free run, then a run failing the n-th fallible bank-keeper call for every n, for native arrival, receive disabled, blocked receiver, invalid receiver and the voucher-return (unescrow) path; the same four cases with every failure position for the IBC v2 transfer stack (rate-limit v2 -> transfer v2) on the client route and on the alias of the v1 channel; distinct = distinct (stack, behaviour, failure position) cases")
+	c.Set("rule", "mock stacks: v2 mock application on the client and alias routes with 0..2 preceding successful payloads (one write each) in the same packet x k in 0..3 writes x success/error/async (async only for single-payload packets); v1 mock: every (ordering, k1 in 0..3 writes to one module store, k2 writes to another, outcome in success/error/async) x 1-2 packets; transfer stack (rate-limit -> packet-forward -> transfer): fault-free run, then a run failing the n-th fallible bank-keeper call for every n, for native arrival, receive disabled, blocked receiver, invalid receiver and the voucher-return (unescrow) path; the same four cases with every failure position for the IBC v2 transfer stack (rate-limit v2 -> transfer v2) on the client route and on the alias of the v1 channel; distinct = distinct (stack, behaviour, failure position) cases")
 	c.Sample(map[string]any{"stack": "mock", "ordering": "UNORDERED", "writes": "3+2", "outcome": "error", "expected_diff": "receipt + error ack only"})
 	c.Sample(map[string]any{"stack": "transfer", "case": "native-arrives", "fail_at_bank_call": 1, "expected_diff": "receipt + error ack only"})
 	c.Assume("the failure injector wraps the exported BankKeeper field of the transfer keeper; ICA host failure positions are covered by C37")
